@@ -8,6 +8,7 @@ import m_guest
 import m_addr
 import m_endian
 import m_streams
+import m_regions
 
 
 def c09(ctx):
@@ -36,6 +37,7 @@ PROPS = {
     "C18": both,
     "C07": c07,
     "C09": c09,
+    "C10": m_regions.run,
     "C13": m_streams.run,
     "C14": m_guest.run_c14,
     "C19": m_addr.run,
